@@ -181,3 +181,54 @@ Proof.
   apply Forall_forall. intros r Hr. pose proof (proj1 (forallb_forall _ _) H2 r Hr) as H.
   apply orb_prop in H. destruct H as [H|H]; [left; apply N.ltb_lt; exact H|right; exact H].
 Qed.
+
+(* ---- the vocabulary of generator text ----
+   [in_vocabulary] does not mention the file, the options or the state: it is a
+   fixed set of byte strings (plus the indentation strings).  Every CText chunk
+   of every generated file is in it, so the bytes of a template (raw text,
+   string literals, map keys, css names, message and translation text, global
+   values, and also identifiers) never reach the output as generator text:
+   strings go through CStrLit (the escaper), identifiers through CName, numbers
+   through CNum, the file name through CFile. *)
+Definition in_vocabulary (t : bstr) : Prop :=
+  In t body_texts \/ In t table_texts \/ (exists n, t = indent_text n) \/ (exists op_, t = binop_sym op_)
+  \/ t = t_fn_params \/ t = t_ns1.
+
+Theorem no_template_bytes_in_text o fuel name body cs : gen_file o fuel name body = Ok cs ->
+  forall c, In c cs ->
+    match c with
+    | CText t => in_vocabulary t
+    | CStrLit q _ => q = 39 \/ q = 34           (* a template string, between quotes, through template.JSEscape *)
+    | CName _ | CNum _ | CFile _ => True         (* an identifier, a number, the file name in the header comment *)
+    end.
+Proof.
+  intros E c Hin. pose proof (proj1 (Forall_forall _ _) (gen_chunks_wf _ _ _ _ _ E) c Hin) as H.
+  destruct c; cbn in H; auto.
+Qed.
+
+(* the emission sites are exhaustive over the node constructors that carry a
+   template string: walking ANY node appends only well-formed chunks, so a
+   constructor's string field can appear in the output in a CStrLit chunk only
+   (the per-constructor equations are the site_* lemmas above) *)
+Theorem walk_chunks_wf o fuel n st x st' : jwalk o fuel n st = Ok (x, st') ->
+  Forall (fun kv : bstr * list chunk => Forall chunk_wf (snd kv)) (j_called st) ->
+  exists cs, j_out st' = rev cs ++ j_out st /\ Forall chunk_wf cs.
+Proof.
+  intros E Hc.
+  assert (H : jspec chunk_wf T (jwalk o fuel n)).
+  { refine (sp_walk o chunk_wf (fun _ => True) _ _ _ _ _ _ _ _ _ _ _ _ _ fuel n I).
+    - intros m _. apply Forall_forall. auto.
+    - auto.
+    - intros t H. cbn. auto.
+    - intros t H. cbn. auto.
+    - intros k. cbn. right; right; left. exists k; reflexivity.
+    - intros op_. cbn. right; right; right; left. exists op_; reflexivity.
+    - intros q s H. exact H.
+    - intros s. exact I.
+    - intros z. cbn. left. exists z; reflexivity.
+    - intros k. cbn. right; left. exists k; reflexivity.
+    - intros f s H. cbn. right; right. exists f; exact H.
+    - intros. cbn. tauto.
+    - intros. cbn. tauto. }
+  destruct (H st x st' Hc E) as (cs & Eo & F & _). exists cs. auto.
+Qed.
